@@ -169,4 +169,9 @@ theorem C03_single_passphrase_after_fault {w : W} (h : Reachable w) (f : Tx.Faul
 theorem C03_passphrase_change_one_transaction :
     ("ChangePrivPassphrase", 1) ∈ Facts.walletTxReach ∧ ("Unlock", 0) ∈ Facts.walletTxReach := by decide
 
+/-- the guard expressions the wallet model transcribes stand in the source as transcribed (regenerated): the
+    one-passphrase rule of `NewKeystore` and `ImportKeystore`, and everything `clearPrivKeys` wipes on `Lock` -/
+theorem C03_condition_facts :
+    Facts.condWalletNewKs = true ∧ Facts.condWalletImport = true ∧ Facts.condWalletClear = true := by decide
+
 end MassVerif.Wallet
